@@ -1,6 +1,6 @@
 """Correspondence stream `always`: source text -> model lexer -> engine loop replaying the observed
 rule decisions -> the ported checks of Model/Checks.lean and Model/Spacing.lean (CheckTernary, CheckLineLen, CheckHeader, CheckSpacing,
-CheckManyInstructions), against what those rules really emitted (emitter observed by wrapping new_error from the harness).
+CheckManyInstructions, CheckCommentLineLen), against what those rules really emitted (emitter observed by wrapping new_error from the harness).
 This is the tie of the end-to-end theorems C03.linelen_e2e / linelen_source / long_line_reported /
 short_lines_silent, C02.ternary_e2e / ternary_sound and C13.at_most_once_file / reject_file / accept_file."""
 from core import Driver, uncps
@@ -9,7 +9,7 @@ from trace import run_traced, decisions
 
 PORTED = {"CheckTernary": ("TERNARY_FBIDDEN",), "CheckLineLen": ("LINE_TOO_LONG",), "CheckHeader": ("INVALID_HEADER",),
           "CheckSpacing": ("MIXED_SPACE_TAB", "SPACE_EMPTY_LINE", "SPACE_REPLACE_TAB", "SPC_BEFORE_NL", "CONSECUTIVE_SPC"),
-          "CheckManyInstructions": ("TOO_MANY_INSTR",)}
+          "CheckManyInstructions": ("TOO_MANY_INSTR",), "CheckCommentLineLen": ("LINE_TOO_LONG",)}
 
 
 def check(res, cases, stream="always"):
